@@ -1524,7 +1524,9 @@ def corpus_chs():
             (3, 2, [], 0.004, "float64", "randn"), (4, 2, [], 2 ** -7, "float32", "randn"), (6, 3, [], 1 / 3, "float64", "randn"),
             (6, 3, [], 1 / 7, "float32", "randn"), (9, 2, [], 0.3333333333333332, "float64", "randn"), (7, 6, [3], 0.4, "float64", "extreme"),
             (7, 6, [3], 0.4, "float32", "extreme"), (12, 4, [2, 3], 0.15, "float64", "mixed"), (3, 1, [1], 0.7, "float64", "steps"),
-            (8, 2, [], 0.45, "float64", "const"), (8, 2, [], 0.45, "float64", "line"), (5, 3, [], 0.6, "float64", "lattice")]):
+            (8, 2, [], 0.45, "float64", "const"), (8, 2, [], 0.45, "float64", "line"), (5, 3, [], 0.6, "float64", "lattice"),
+            (3, 3, [3], 0.5, "float64", "randn"), (3, 3, [3, 3], 0.3, "float32", "randn"), (4, 4, [4], 0.25, "float64", "randn"),
+            (7, 1, [7], 0.4, "float64", "randn"), (2, 2, [2, 2], 0.5, "float64", "randn"), (5, 5, [1, 5], 0.2, "float64", "randn")]):
         c.append({**base, "N": N, "D": D, "batch": batch, "interval": iv, "dtype": dt_, "pts": pts, "seed": sd + 100 + i})
     return c
 
@@ -1543,7 +1545,11 @@ def corpus_bs():
             (6, [], 0.3, False, "walk", 1e-10, 1e4, "float64", False), (6, [], 0.3, False, "walk", 0.0, 0.0, "float64", False),
             (6, [], 0.3, False, "walk", 3.1, 1.0, "float64", False), (8, [], 0.3, False, "twist", math.pi - 0.1, 1e4, "float64", False),
             (8, [], 0.3, True, "twist", 1e-10, 1e-6, "float64", False), (8, [], 0.3, False, "twist", 1.2e-7, 1.0, "float32", False),
-            (9, [2], 0.6, False, "repeat", 0.5, 1.0, "float64", True), (3, [], 0.5, False, "walk", 0.5, 1.0, "float64", False)]):
+            (9, [2], 0.6, False, "repeat", 0.5, 1.0, "float64", True), (3, [], 0.5, False, "walk", 0.5, 1.0, "float64", False),
+            (7, [7], 0.5, False, "walk", 0.5, 1.0, "float64", False), (7, [3, 7], 0.5, True, "walk", 0.5, 1.0, "float64", False),
+            (4, [4], 0.5, False, "walk", 0.5, 1.0, "float32", False), (3, [3], 0.5, True, "walk", 0.5, 1.0, "float64", False),
+            (6, [6], 0.5, False, "mixed", 0.0, 1.0, "float64", False), (7, [7, 3], 0.4, False, "mixed", 0.0, 1.0, "float64", False),
+            (4, [1], 0.5, False, "walk", 0.5, 1.0, "float64", False), (5, [1, 1], 0.5, True, "walk", 0.5, 1.0, "float64", False)]):
         c.append({"kind": "bs", "dtype": dt_, "N": N, "batch": batch, "interval": iv, "extrapolate": ex, "gen": gen, "rot": rot,
                   "tscale": ts, "flip": flip, "continuity": 2 if i % 3 == 0 else 0, "seed": sd + 200 + i})
     return c
@@ -1551,7 +1557,8 @@ def corpus_bs():
 
 def corpus_geo():
     c = []
-    shapes = [([], []), ([3], [3]), ([2, 3], [3]), ([1], [4]), ([2, 1], [1, 3]), ([5], [])]
+    shapes = [([], []), ([3], [3]), ([2, 3], [3]), ([1], [4]), ([2, 1], [1, 3]), ([5], []), ([4], [4]), ([7], [7]), ([3, 4], [4]),
+              ([7, 3], [7, 1]), ([3, 3], [3, 3])]
     i = 0
     for dt_ in ("float64", "float32"):
         for tx in GEO_TYPES:
@@ -1646,14 +1653,14 @@ def run_history(ctx: Ctx, mb: MB):
     seq = [b0, {**b0, "dtype": "float32"}, b0, {**b0, "interval": 0.26}, {**b0, "interval": 0.3}, {**b0, "interval": 0.45}, {**b0, "N": 7},
            {**b0, "D": 3}, {**b0, "batch": [2]}, {**b0, "seed": sd + 1}, {**b0, "scale": 1e3}, {**b0, "pts": "line"}, b0]
     first = None
-    for i, c in enumerate(seq):
+    for i, c in enumerate(seq + seq[::-1]):        # kind 17: the same calls again in the opposite order
         c = dict(c)
         check_chs(ctx, c, mb)
         ctx.note_case(("history", "chs", i), True)
         ctx.count("history.chs")
         if i == 0:
             first = c.get("_out")
-        elif i == len(seq) - 1 and first is not None and not same_bits(first, c.get("_out")):
+        elif c == {**seq[0], **{k_: v_ for k_, v_ in c.items() if k_.startswith("_")}} and first is not None and not same_bits(first, c.get("_out")):
             ctx.fail(pub(c) | {"history": "chs", "step": i}, "history-repeat: chspline called again with the arguments of the first call (after calls with other dtype / interval / N / D / batch / data) returns different bits")
     # --- bspline
     b0 = {"kind": "bs", "dtype": "float64", "N": 6, "batch": [], "interval": 0.3, "extrapolate": False, "gen": "walk", "rot": 0.6,
@@ -1662,14 +1669,14 @@ def run_history(ctx: Ctx, mb: MB):
            {**b0, "interval": 0.26, "dtype": "float32"}, {**b0, "N": 7}, {**b0, "batch": [2]}, {**b0, "extrapolate": True},
            {**b0, "extrapolate": True, "N": 2}, {**b0, "seed": sd + 11}, {**b0, "gen": "twist", "rot": 1.0}, {**b0, "tscale": 1e4}, b0]
     first = None
-    for i, c in enumerate(seq):
+    for i, c in enumerate(seq + seq[::-1]):
         c = dict(c)
         check_bs(ctx, c, mb)
         ctx.note_case(("history", "bs", i), True)
         ctx.count("history.bs")
         if i == 0:
             first = c.get("_out")
-        elif i == len(seq) - 1 and first is not None and not same_bits(first, c.get("_out")):
+        elif c == {**seq[0], **{k_: v_ for k_, v_ in c.items() if k_.startswith("_")}} and first is not None and not same_bits(first, c.get("_out")):
             ctx.fail(pub(c) | {"history": "bs", "step": i}, "history-repeat: bspline called again with the arguments of the first call (after calls with other dtype / interval / N / batch / extrapolate / data) returns different bits")
     # --- geodesic: one module object per reduction through types, dtypes, shapes
     g0 = {"kind": "geo", "dtype": "float64", "type_x": "SO3", "type_y": "SO3", "shape_x": [3], "shape_y": [3], "reduction": "mean",
@@ -1926,6 +1933,250 @@ def run_views(ctx: Ctx):
         ctx.fail(case, f"views-raises: ape/rpe raised with aliased arguments: {excs(e)}")
 
 
+# ============================================================================= hardening pass 2 (kinds 10-17)
+
+def bits_eq(a, b):
+    a = a.tensor() if hasattr(a, "ltype") else a
+    b = b.tensor() if hasattr(b, "ltype") else b
+    if isinstance(a, dict) and isinstance(b, dict):
+        return sorted(a) == sorted(b) and all(bits_eq(a[k_], b[k_]) for k_ in a)
+    if not (isinstance(a, torch.Tensor) and isinstance(b, torch.Tensor)):
+        return False
+    return a.shape == b.shape and a.dtype == b.dtype and torch.equal(torch.nan_to_num(a.detach(), nan=1234.5), torch.nan_to_num(b.detach(), nan=1234.5))
+
+
+def expect_same(ctx, case, label, ref, fn):
+    ctx.note_case(("pass2", case["kind"], case.get("fn"), label), True)
+    ctx.count(f"{case['kind']}.{case.get('fn')}")
+    try:
+        with warnings.catch_warnings():
+            warnings.simplefilter("ignore")
+            got = fn()
+    except Exception as e:
+        ctx.fail(case | {"variant": label}, f"{case['kind']}-raises: {case.get('fn')} raised for the variant '{label}': {excs(e)}")
+        return None
+    if not bits_eq(got, ref):
+        ctx.fail(case | {"variant": label}, f"{case['kind']}: {case.get('fn')} called as '{label}' returns other values than the reference call")
+    return got
+
+
+def run_pass2(ctx: Ctx):
+    import copy
+    import pickle
+    P = pp()
+    A = AR()
+    rnd = random.Random(CORPUS_SEED + 800)
+    pts = torch.tensor([[[rnd.gauss(0, 1) for _ in range(3)] for _ in range(6)] for _ in range(3)], dtype=torch.float64)
+    Xd = torch.tensor(np.stack([R.walk(rnd, 7, 1.0, 0.7) for _ in range(3)]))
+    X = P.SE3(Xd.clone())
+    qx, qy = P.SE3(torch.tensor(R.walk(rnd, 4, 1.0, 0.9))), P.Sim3(torch.cat([torch.tensor(R.walk(rnd, 4, 1.0, 0.9)), torch.ones(4, 1) * 1.3], -1))
+    M = 11
+    rs = torch.arange(M, dtype=torch.float64) * 0.1 + 3.0
+    es = rs + 0.003
+    rp = P.SE3(torch.tensor(R.walk(rnd, M, 1.0, 0.4)))
+    ep = P.SE3(torch.tensor(R.walk(rnd, M, 1.0, 0.4)))
+
+    def W(f):
+        with warnings.catch_warnings():
+            warnings.simplefilter("ignore")
+            return f()
+    # ---------------- kind 10: defaults, positional vs keyword, rarely used keywords, pairs of options
+    c = {"kind": "args", "fn": "chspline"}
+    ref = P.chspline(pts, 0.1)
+    expect_same(ctx, c, "default interval", ref, lambda: P.chspline(pts))
+    expect_same(ctx, c, "keyword interval", ref, lambda: P.chspline(pts, interval=0.1))
+    expect_same(ctx, c, "all keywords", ref, lambda: P.chspline(points=pts, interval=0.1))
+    c = {"kind": "args", "fn": "bspline"}
+    ref = P.bspline(X, 0.1, False)
+    expect_same(ctx, c, "defaults", ref, lambda: P.bspline(X))
+    expect_same(ctx, c, "keywords", ref, lambda: P.bspline(data=X, interval=0.1, extrapolate=False))
+    expect_same(ctx, c, "extrapolate keyword only", P.bspline(X, 0.1, True), lambda: P.bspline(X, extrapolate=True))
+    c = {"kind": "args", "fn": "geodesic_loss"}
+    for rd in ("none", "mean", "sum"):
+        ref = P.geodesic_loss(qx, qy, reduction=rd)
+        expect_same(ctx, c, f"positional reduction {rd}", ref, lambda: P.geodesic_loss(qx, qy, rd))
+        expect_same(ctx, c, f"keywords {rd}", ref, lambda: P.geodesic_loss(input=qx, target=qy, reduction=rd))
+        expect_same(ctx, c, f"module keyword {rd}", ref, lambda: P.module.GeodesicLoss(reduction=rd)(input=qx, target=qy))
+    expect_same(ctx, c, "default reduction", P.geodesic_loss(qx, qy, reduction="mean"), lambda: P.geodesic_loss(qx, qy))
+    expect_same(ctx, c, "module default reduction", P.geodesic_loss(qx, qy, reduction="mean"), lambda: P.module.GeodesicLoss()(qx, qy))
+    c = {"kind": "args", "fn": "ape"}
+    n_assoc = M
+    for et, diff, off, al, sc_, orig, ot in [("translation", 0.01, 0.0, False, False, False, "All"), ("pose", 0.02, 0.001, True, False, False, "All"),
+                                             ("radian", 0.01, -0.002, False, True, False, "RMSE"), ("rotation", 0.05, 0.0, True, True, True, "All"),
+                                             ("degree", 0.01, 0.0, False, False, True, "Median"), ("pose", 0.01, 0.0, False, True, True, "STD")]:
+        ref = W(lambda: A.ape(rs, rp, es, ep, etype=et, diff=diff, offset=off, align=al, scale=sc_, origin=orig, otype=ot))
+        expect_same(ctx, c, f"positional ({et},{al},{sc_},{orig},{ot})", ref, lambda: A.ape(rs, rp, es, ep, et, diff, off, al, sc_, -1, orig, 0.3, ot))
+        expect_same(ctx, c, f"thresh=0.0 ({et})", ref, lambda: A.ape(rs, rp, es, ep, etype=et, diff=diff, offset=off, align=al, scale=sc_, origin=orig, otype=ot, thresh=0.0))
+        expect_same(ctx, c, f"thresh=1.0 ({et})", ref, lambda: A.ape(rs, rp, es, ep, etype=et, diff=diff, offset=off, align=al, scale=sc_, origin=orig, otype=ot, thresh=1.0))
+        expect_same(ctx, c, f"nposes = number of poses ({et})", ref, lambda: A.ape(rs, rp, es, ep, etype=et, diff=diff, offset=off, align=al, scale=sc_, origin=orig, otype=ot, nposes=n_assoc))
+        expect_same(ctx, c, f"all keywords ({et})", ref, lambda: A.ape(rstamp=rs, rpose=rp, estamp=es, epose=ep, etype=et, diff=diff, offset=off, align=al, scale=sc_, nposes=-1, origin=orig, thresh=0.3, otype=ot))
+    if True:
+        expect_same(ctx, c, "defaults", W(lambda: A.ape(rs, rp, es, ep, etype="translation", diff=0.01, offset=0.0, align=False, scale=False, nposes=-1, origin=False, thresh=0.3, otype="All")),
+                    lambda: A.ape(rs, rp, es, ep))
+    c = {"kind": "args", "fn": "rpe"}
+    for et, al, sc_, orig, assoc, dl, rt, all_, rpair, ot in [("translation", False, False, False, "frame", 1.0, 0.1, False, False, "All"),
+                                                              ("pose", True, False, False, "distance", 0.8, 0.3, True, True, "All"),
+                                                              ("radian", False, True, True, "frame", 2.0, 0.1, True, False, "Max"),
+                                                              ("degree", True, True, False, "distance", 1.1, 0.2, False, True, "SSE")]:
+        ref = W(lambda: A.rpe(rs, rp, es, ep, etype=et, align=al, scale=sc_, origin=orig, associate=assoc, delta=dl, rtol=rt, all=all_, rpair=rpair, otype=ot))
+        expect_same(ctx, c, f"positional ({et},{assoc},{all_},{rpair})", ref,
+                    lambda: A.rpe(rs, rp, es, ep, et, 0.01, 0.0, al, sc_, -1, orig, assoc, dl, rt, all_, 0.3, rpair, ot))
+        expect_same(ctx, c, f"thresh/nposes ({et})", ref,
+                    lambda: A.rpe(rs, rp, es, ep, etype=et, align=al, scale=sc_, origin=orig, associate=assoc, delta=dl, rtol=rt, all=all_, rpair=rpair, otype=ot, thresh=0.9, nposes=M))
+    expect_same(ctx, c, "defaults", W(lambda: A.rpe(rs, rp, es, ep, etype="translation", diff=0.01, offset=0.0, align=False, scale=False, nposes=-1, origin=False,
+                                                    associate="frame", delta=1.0, rtol=0.1, all=False, thresh=0.3, rpair=False, otype="All")), lambda: A.rpe(rs, rp, es, ep))
+    # ---------------- kind 11: a failing call in between changes nothing (functions and the module object)
+    c = {"kind": "atomic", "fn": "all"}
+    mod = P.module.GeodesicLoss(reduction="sum")
+    snap = {k_: v_ for k_, v_ in vars(mod).items() if not k_.startswith("_")}
+    good = [lambda: P.chspline(pts, 0.3), lambda: P.bspline(X, 0.4, True), lambda: mod(qx, qy), lambda: A.ape(rs, rp, es, ep, etype="pose", align=True),
+            lambda: A.rpe(rs, rp, es, ep, etype="radian", all=True)]
+    refs = [W(g) for g in good]
+    bad = [lambda: P.chspline(pts, 1.5), lambda: P.chspline(torch.zeros(3), 0.5), lambda: P.bspline(X[:, :3], 0.4), lambda: P.bspline(P.randn_SO3(5), 0.4),
+           lambda: mod(qx, torch.zeros(4, 7)), lambda: mod(qx.tensor(), qy), lambda: P.geodesic_loss(qx, qy, reduction="max"),
+           lambda: A.ape(rs, rp, es + 50.0, ep), lambda: A.rpe(rs, rp, es, ep, delta=500.0), lambda: A.ape(rs, rp, es, ep, etype="nonsense"),
+           lambda: A.rpe(rs, rp, es, ep, associate="nonsense"), lambda: A.ape(rs[:-1], rp, es, ep), lambda: A.ape(rs, rp, es, ep, otype="nope")]
+    for bi, b_ in enumerate(bad):
+        raised = False
+        try:
+            W(b_)
+        except Exception:
+            raised = True
+        if not raised:
+            ctx.fail(c | {"bad_call": bi}, f"atomic: malformed call #{bi} was accepted without an exception")
+        for gi, g in enumerate(good):
+            expect_same(ctx, c, f"good call {gi} after failing call {bi}", refs[gi], g)
+        now = {k_: v_ for k_, v_ in vars(mod).items() if not k_.startswith("_")}
+        if now != snap:
+            ctx.fail(c | {"bad_call": bi}, f"atomic: GeodesicLoss attributes changed by a failing call: {snap} -> {now}")
+    # ---------------- kind 12: grad modes give the same VALUES
+    def leafs(*ts):
+        out = []
+        for t in ts:
+            if hasattr(t, "ltype"):
+                out.append(P.LieTensor(t.tensor().clone().requires_grad_(True), ltype=t.ltype))
+            else:
+                out.append(t.clone().requires_grad_(True))
+        return out
+
+    def in_graph(*ts):
+        out = []
+        for t in leafs(*ts):
+            out.append(P.LieTensor(t.tensor() * 1.0, ltype=t.ltype) if hasattr(t, "ltype") else t * 1.0)
+        return out
+    calls = {"chspline": ((pts,), lambda p_: P.chspline(p_, 0.3)), "bspline": ((X,), lambda x_: P.bspline(x_, 0.4, True)),
+             "bspline(no extrapolate)": ((X,), lambda x_: P.bspline(x_, 0.3)),
+             "geodesic_loss": ((qx, qy), lambda a_, b_: P.geodesic_loss(a_, b_, reduction="none")),
+             "ape": ((rp, ep), lambda a_, b_: A.ape(rs, a_, es, b_, etype="pose", align=True, scale=True)),
+             "ape(origin)": ((rp, ep), lambda a_, b_: A.ape(rs, a_, es, b_, etype="radian", origin=True)),
+             "rpe": ((rp, ep), lambda a_, b_: A.rpe(rs, a_, es, b_, etype="rotation", associate="distance", delta=0.8, all=True))}
+    for nm, (args, f) in calls.items():
+        c = {"kind": "gradmode", "fn": nm}
+        ref = W(lambda: f(*args))
+        expect_same(ctx, c, "requires_grad operands", ref, lambda: f(*leafs(*args)))
+        expect_same(ctx, c, "inside an autograd graph", ref, lambda: f(*in_graph(*args)))
+
+        def ng():
+            with torch.no_grad():
+                return f(*args)
+
+        def ng2():
+            with torch.no_grad():
+                return f(*leafs(*args))
+
+        def inf():
+            with torch.inference_mode():
+                return f(*[(P.LieTensor(t.tensor().clone(), ltype=t.ltype) if hasattr(t, "ltype") else t.clone()) for t in args])
+        expect_same(ctx, c, "torch.no_grad()", ref, ng)
+        expect_same(ctx, c, "no_grad with requires_grad operands", ref, ng2)
+        expect_same(ctx, c, "torch.inference_mode()", ref, inf)
+    # ---------------- kind 13: duck-typed inputs
+    c = {"kind": "ducktype", "fn": "bspline"}
+    expect_same(ctx, c, "pp.Parameter", P.bspline(X, 0.4, True), lambda: P.bspline(P.Parameter(P.SE3(Xd.clone())), 0.4, True))
+    c = {"kind": "ducktype", "fn": "geodesic_loss"}
+    expect_same(ctx, c, "pp.Parameter", P.geodesic_loss(qx, qy, reduction="none"), lambda: P.geodesic_loss(P.Parameter(qx.clone()), P.Parameter(qy.clone()), reduction="none"))
+    c = {"kind": "ducktype", "fn": "chspline"}
+    expect_same(ctx, c, "torch.nn.Parameter", P.chspline(pts, 0.3), lambda: P.chspline(torch.nn.Parameter(pts.clone()), 0.3))
+    c = {"kind": "ducktype", "fn": "ape/rpe"}
+    ri = torch.arange(M, dtype=torch.int64)
+    rf = ri.double()
+    for fn_, kw in ((A.ape, dict(etype="pose", align=True)), (A.rpe, dict(etype="radian", all=True)), (A.ape, dict(offset=0.25, diff=0.3))):
+        ref = W(lambda: fn_(rf, rp, rf + (0.25 if "offset" not in kw else 0.0) * 0, ep, **kw))
+        expect_same(ctx, c, f"int64 stamps {fn_.__name__}", ref, lambda: fn_(ri, rp, ri, ep, **kw))
+        expect_same(ctx, c, f"float32 stamps {fn_.__name__}", ref, lambda: fn_(ri.float(), rp, ri.float(), ep, **kw))
+        expect_same(ctx, c, f"None stamps {fn_.__name__}", ref, lambda: fn_(None, rp, None, ep, **kw))
+        expect_same(ctx, c, f"mixed None / tensor stamps {fn_.__name__}", ref, lambda: fn_(None, rp, rf, ep, **kw))
+        expect_same(ctx, c, f"mixed int64 / None stamps {fn_.__name__}", ref, lambda: fn_(ri, rp, None, ep, **kw))
+        expect_same(ctx, c, f"mixed float32 / int64 stamps {fn_.__name__}", ref, lambda: fn_(ri.float(), rp, ri, ep, **kw))
+        expect_same(ctx, c, f"Parameter poses {fn_.__name__}", ref, lambda: fn_(rf, P.Parameter(rp.clone()), rf, P.Parameter(ep.clone()), **kw))
+    # ---------------- kind 14: copies of the module object follow their own law
+    c = {"kind": "copies", "fn": "GeodesicLoss"}
+    m0 = P.module.GeodesicLoss(reduction="sum")
+    r_sum, r_none = P.geodesic_loss(qx, qy, reduction="sum"), P.geodesic_loss(qx, qy, reduction="none")
+    m0(qx, qy)
+    copies = {"deepcopy": copy.deepcopy(m0), "copy": copy.copy(m0), "pickle": pickle.loads(pickle.dumps(m0))}
+    m_sd = P.module.GeodesicLoss(reduction="sum")
+    m_sd.load_state_dict(m0.state_dict())
+    copies["state_dict"] = m_sd
+    for nm, mc in copies.items():
+        expect_same(ctx, c, f"{nm} gives the original's result", r_sum, lambda: mc(qx, qy))
+    for nm, mc in copies.items():
+        if nm == "copy":
+            continue
+        mc.reduction = "none"
+        expect_same(ctx, c, f"{nm} with its own reduction", r_none, lambda: mc(qx, qy))
+        expect_same(ctx, c, f"original after changing the {nm}", r_sum, lambda: m0(qx, qy))
+        mc.reduction = "sum"
+    # ---------------- kind 15: outputs own their memory
+    for label, src in (("random points", pts), ("constant points", torch.full((3, 6, 3), 2.5, dtype=torch.float64)),
+                       ("straight line", (torch.arange(6.0, dtype=torch.float64)[:, None] * torch.tensor([1.0, -2.0, 0.5], dtype=torch.float64)).expand(3, 6, 3).clone())):
+        c = {"kind": "ownmem", "fn": "chspline", "input": label}
+        p_in = src.clone()
+        o1 = P.chspline(p_in, 0.3)
+        keep = o1.clone()
+        o1[0, 0, :] += 7.0
+        o1[1].mul_(0.0)
+        ctx.note_case(("pass2", "ownmem", label), True)
+        if not torch.equal(p_in, src):
+            ctx.fail(c, f"ownmem: writing into chspline's result changed the input points (the result aliases its argument; {label})")
+        if not (torch.equal(o1[2], keep[2]) and torch.equal(o1[0, 1:], keep[0, 1:])):
+            ctx.fail(c, f"ownmem: writing one item of chspline's result changed other items (overlapping result memory; {label})")
+        expect_same(ctx, c, "call after writing into an earlier result", keep, lambda: P.chspline(p_in, 0.3))
+    Xsame = Xd[:, :1, :].expand(3, 7, 7).clone()        # identical poses: a degenerate input whose result could be an expanded view
+    for ex, Xsrc in ((False, Xd), (True, Xd), (False, Xsame), (True, Xsame)):
+        c = {"kind": "ownmem", "fn": "bspline", "extrapolate": ex, "identical_poses": Xsrc is Xsame}
+        Xd_ = Xsrc
+        x_in = P.SE3(Xd_.clone())
+        o1 = P.bspline(x_in, 0.4, ex)
+        keep = o1.tensor().clone()
+        o1.tensor()[0, 0, :] = 0.0
+        o1.tensor()[1].mul_(0.0)
+        o1.tensor()[..., -1, :] += 1.0
+        if not torch.equal(x_in.tensor(), Xd_):
+            ctx.fail(c, "ownmem: writing into bspline's result changed the input poses (the result aliases its argument)")
+        chk = o1.tensor()
+        if not (torch.equal(chk[2, :-1], keep[2, :-1]) and torch.equal(chk[0, 1:-1], keep[0, 1:-1])):
+            ctx.fail(c, "ownmem: writing one item of bspline's result changed other items (overlapping result memory)")
+        expect_same(ctx, c, "call after writing into an earlier result", keep, lambda: P.bspline(x_in, 0.4, ex).tensor())
+    c = {"kind": "ownmem", "fn": "geodesic_loss"}
+    a_in, b_in = qx.clone(), qy.clone()
+    g1 = P.geodesic_loss(a_in, b_in, reduction="none")
+    keep = g1.clone()
+    g1[0] = 9.0
+    if not (torch.equal(a_in.tensor(), qx.tensor()) and torch.equal(b_in.tensor(), qy.tensor()) and torch.equal(g1[1:], keep[1:])):
+        ctx.fail(c, "ownmem: writing into geodesic_loss's result changed an argument or another item")
+    expect_same(ctx, c, "call after writing into an earlier result", keep, lambda: P.geodesic_loss(a_in, b_in, reduction="none"))
+    c = {"kind": "ownmem", "fn": "ape/rpe"}
+    for fn_ in (A.ape, A.rpe):
+        r1 = W(lambda: fn_(rs, rp, es, ep, etype="pose"))
+        keep = {k_: v_.clone() for k_, v_ in r1.items()}
+        r1["Max"].mul_(0.0)
+        r1["SSE"].add_(5.0)
+        if any(not torch.equal(r1[k_], keep[k_]) for k_ in STAT_KEYS if k_ not in ("Max", "SSE")):
+            ctx.fail(c, f"ownmem: the statistics returned by {fn_.__name__} share memory (writing Max/SSE changed another entry)")
+        expect_same(ctx, c, f"{fn_.__name__} after writing into an earlier result", keep, lambda: fn_(rs, rp, es, ep, etype="pose"))
+
+
 # ============================================================================= entry points
 
 def run(ctx: Ctx):
@@ -1935,6 +2186,7 @@ def run(ctx: Ctx):
     guard(ctx, {"kind": "history"}, "history", lambda: run_history(ctx, mb))
     guard(ctx, {"kind": "stale"}, "stale", lambda: run_stale(ctx))
     guard(ctx, {"kind": "views"}, "views", lambda: run_views(ctx))
+    guard(ctx, {"kind": "pass2"}, "pass2", lambda: run_pass2(ctx))
     run_chs(ctx, mb, ctx.pick(90, 1000))
     run_bs(ctx, mb, ctx.pick(50, 750))
     run_geo(ctx, mb, ctx.pick(80, 1200))
@@ -1968,6 +2220,8 @@ def replay(ctx: Ctx, case) -> bool:
         check_geo(ctx, c, mb)
     elif kind == "traj":
         check_traj(ctx, c, mb)
+    elif kind in ("args", "atomic", "gradmode", "ducktype", "copies", "ownmem", "pass2"):
+        run_pass2(ctx)
     elif kind in ("stale", "views", "history", "corpus"):
         {"stale": lambda: run_stale(ctx), "views": lambda: run_views(ctx), "history": lambda: run_history(ctx, mb),
          "corpus": lambda: run_corpus(ctx, mb)}[kind]()
